@@ -25,7 +25,11 @@ def calibrate():
 
 
 def strategy(tier):
-    return Lm.case_st(tier)
+    from hypothesis import strategies as st
+
+    nf = st.lists(st.fixed_dictionaries({"body": st.lists(st.sampled_from(["nop", "xor", "push", "mark"]), min_size=1, max_size=3),
+                                         "label": st.booleans()}), max_size=2)
+    return st.tuples(Lm.case_st(tier), nf).map(lambda t: {**t[0], "newfuncs": t[1]})
 
 
 def budget(tier):
@@ -47,19 +51,74 @@ def _boundary(case, exp):
 def evaluate(spec):
     import gtirb
 
-    out, r = _rw.start(spec)
+    import gtirb_rewriting as gr
+
+    newfuncs = spec.get("newfuncs") or []
+    new_syms = {}
+    new_bytes = {}
+
+    def pre_apply(ctx, built):
+        case0 = built.case
+        if case0.isa == "mips32" or "ret" not in case0.tab:
+            return
+        for k, nf in enumerate(newfuncs):
+            lines = [I.render(case0.isa, case0.tab[n], None, 5) for n in nf["body"]]
+            if nf.get("label"):
+                lines.insert(1 if len(lines) > 1 else 0, f"nfl{k}:")
+            lines.append(I.render(case0.isa, case0.tab["ret"]))
+            new_bytes[f"newfn{k}"] = b"".join(I.encode(case0.isa, case0.tab[n], imm=5) for n in nf["body"]) + I.encode(case0.isa, case0.tab["ret"])
+            text = "\n".join(lines) + "\n"
+            patch = gr.Patch.from_function(lambda ctx_, text=text: text, gr.Constraints())
+            new_syms[f"newfn{k}"] = ctx.register_insert_function(f"newfn{k}", patch)
+
+    def skip():
+        return {s_.referent.byte_interval for s_ in new_syms.values()
+                if isinstance(s_.referent, gtirb.CodeBlock) and s_.referent.byte_interval is not None}
+
+    out, r = _rw.start(spec, pre_apply=pre_apply, skip_intervals=skip)
     if r is None:
         return out
     case, exp, obs, m = r.case, r.exp, r.obs, r.built.module
+    if new_syms:
+        out.classes.append("register_insert_function")
+        out.nontrivial = True
     if not case.funcs:
         out.classes.append("no-functions")
     out.nontrivial = _boundary(case, exp)
     fb = m.aux_data.get("functionBlocks")
     fe = m.aux_data.get("functionEntries")
     fn = m.aux_data.get("functionNames")
+    # functions inserted with register_insert_function
+    for name, sym in new_syms.items():
+        if fb is None or fe is None or fn is None:
+            out.fail("C06.inserted-function", "tables-missing", name)
+            continue
+        us = [u for u, s_ in fn.data.items() if s_ is sym]
+        if len(us) != 1:
+            out.fail("C06.inserted-function", "not-exactly-one-functionNames-entry", f"{name}: {len(us)}")
+            continue
+        u = us[0]
+        ent = fe.data.get(u, set())
+        blks = fb.data.get(u, set())
+        ref = sym.referent
+        if not isinstance(ref, gtirb.CodeBlock) or ref.byte_interval is None or ref.module is not m:
+            out.fail("C06.inserted-function", "symbol-not-on-live-code-block", name)
+            continue
+        if set(ent) != {ref}:
+            out.fail("C06.inserted-function", "entry-is-not-the-symbols-block", f"{name}: {len(ent)} entries")
+        if not set(ent) <= set(blks):
+            out.fail("C06.inserted-function", "entry-not-in-blocks", name)
+        # every block of the inserted code belongs to the function
+        bi_ = ref.byte_interval
+        mine = [b for b in bi_.blocks if isinstance(b, gtirb.CodeBlock)]
+        if bytes(bi_.contents) != new_bytes[name]:
+            out.fail("C06.inserted-function", "body-bytes", f"{name}: {bytes(bi_.contents).hex()} expected {new_bytes[name].hex()}")
+        if set(mine) != set(blks):
+            out.fail("C06.inserted-function", "function-blocks-differ-from-inserted-code",
+                     f"{name}: {len(blks)} in table, {len(mine)} code blocks inserted")
     if not case.funcs:
         for t in (fb, fe, fn):
-            if t is not None and t.data:
+            if t is not None and any(u not in [x for x, s_ in (fn.data.items() if fn else []) if s_ in new_syms.values()] for u in t.data):
                 out.fail("C06.tables", "function-appeared", str(t.data)[:200])
         return out
     fb, fe, fn = fb.data, fe.data, fn.data
@@ -102,7 +161,7 @@ def evaluate(spec):
                 out.fail("C06.attribution", "wrong-function",
                          f"{u.origin} at section {si}+{e.pos}: in {sorted(funcs)} expected {sorted(want)}",
                          u.origin[0] + ("/data" if u.kind == "data" else ""))
-    have = set(name_of.values())
+    have = set(name_of.values()) - set(new_syms)
     for f in case.funcs:
         if f in surviving and f not in have:
             out.fail("C06.tables", "function-lost", f)
